@@ -1,7 +1,9 @@
 # C14 — stack depth limiting.  Model: coq/Model/FrameLimit.v; tie: harness/h_samply psd mode
 # (ProcessSampleData::flush_samples_to_profile driven directly; samply/src/shared/*.rs compiled in by #[path]).
-import os, sys
+import json, os, re, shutil, subprocess, sys
+from concurrent.futures import ThreadPoolExecutor
 from . import common as K
+from . import perfdata as P
 
 PROP = "C14"
 RULE = ("cases = 1..6 samples flushed together through ProcessSampleData::flush_samples_to_profile, each a call chain of distinct unmapped "
@@ -60,11 +62,134 @@ def gen(tier, rng, scale):
                 segs.append(["g", d - prev, base + prev * step, step])
             items.append({"extra": extra, "segs": segs, "depth": d})
         cases.append({"items": items})
+    # end-to-end stream: the same depths as call chains of a perf.data recording converted by `samply import`
+    erng = rng.fork("e2e")
+    for _ in range((24 if quick else 300) * scale):
+        items = []
+        base = 0x10000000
+        for si in range(erng.range(1, 4)):
+            d = max(1, _depth(erng, True))
+            base += 0x1000000
+            items.append({"extra": False, "segs": [["g", d, base, erng.choice([8, 16, 24])]], "depth": d})
+        cases.append({"kind": "e2e", "items": items})
     return cases
 
 
 def with_items(case, items):
-    return {"items": items}
+    c = {"items": items}
+    if case.get("kind"):
+        c["kind"] = case["kind"]
+    return c
+
+
+ORIGIN = 10 ** 9
+
+
+def _rle(addrs_or_marks):
+    """run-length encode a frame list (ints = raw addresses, ("E", k) = placeholder, "X" = anything else) as oseg terms"""
+    out = []
+    i = 0
+    while i < len(addrs_or_marks):
+        x = addrs_or_marks[i]
+        if isinstance(x, tuple):
+            out.append("OE %d" % x[1])
+            i += 1
+        elif x == "X":
+            out.append("OBad")
+            i += 1
+        else:
+            j = i + 1
+            step = None
+            while j < len(addrs_or_marks) and isinstance(addrs_or_marks[j], int):
+                st = addrs_or_marks[j] - addrs_or_marks[j - 1]
+                if step is None:
+                    step = st
+                if st != step or st < 0:
+                    break
+                j += 1
+            if j - i == 1:
+                out.append("ORun %d 1 0" % x)
+            else:
+                out.append("ORun %d %d %d" % (x, j - i, step))
+            i = j
+    return out
+
+
+def _e2e_one(samply, case, d):
+    recs = [P.comm(100, 100, "deep", ORIGIN + 1, True)]
+    t = ORIGIN + 10
+    for s in case["items"]:
+        _, n, start, step = s["segs"][0]
+        lookups = [start + i * step for i in range(n)]            # root first
+        chain = [lookups[-1]] + [a + 1 for a in reversed(lookups[:-1])]     # leaf ip, then return addresses towards the root
+        t += 1000
+        s["_t"] = t
+        recs.append(P.sample(100, 100, t, chain[0], [P.PERF_CONTEXT_USER] + chain))
+    recs.append(P.finished_round())
+    pd = os.path.join(d, "rec.perf.data")
+    open(pd, "wb").write(P.build(recs, first_time=ORIGIN, last_time=t))
+    outp = os.path.join(d, "out.json")
+    r = subprocess.run([samply, "import", pd, "--save-only", "-o", outp], capture_output=True, text=True, timeout=300)
+    if r.returncode != 0 or not os.path.exists(outp):
+        return None
+    prof = json.load(open(outp))
+    th = next(x for x in prof["threads"] if str(x["tid"]).split(".")[0] == "100")
+    st, ft, fu, sa = th["stackTable"], th["frameTable"], th["funcTable"], th["stringArray"]
+    sm = th["samples"]
+    times = sm.get("time")
+    if times is None:
+        acc, times = 0.0, []
+        for dlt in sm["timeDeltas"]:
+            acc += dlt
+            times.append(acc)
+    by_time = {ORIGIN + int(round(x * 1e6)): sm["stack"][k] for k, x in enumerate(times)}
+    obs = []
+    for s in case["items"]:
+        i = by_time.get(s["_t"])
+        fr = []
+        while i is not None:
+            name = sa[fu["name"][ft["func"][st["frame"][i]]]]
+            m = re.fullmatch(r"\((\d+) frames elided\)", name)
+            fr.append(("E", int(m.group(1))) if m else (int(name, 16) if name.startswith("0x") else "X"))
+            i = st["prefix"][i]
+        obs.append(_rle(fr[::-1]))
+    return obs
+
+
+def _evaluate_e2e(cases):
+    ok, log, samply = K.cargo_build_samply()
+    if not ok:
+        raise K.TieBroken("samply does not build:\n" + log[-1500:])
+    base = os.path.join(K.SCRATCH, "c14e_%d" % os.getpid())
+    shutil.rmtree(base, ignore_errors=True)
+    os.makedirs(base)
+
+    def one(i):
+        d = os.path.join(base, "h%d" % i)
+        os.makedirs(d)
+        try:
+            return _e2e_one(samply, cases[i], d)
+        finally:
+            shutil.rmtree(d, ignore_errors=True)
+    try:
+        with ThreadPoolExecutor(max_workers=K.NCPU) as ex:
+            results = list(ex.map(one, range(len(cases))))
+    finally:
+        shutil.rmtree(base, ignore_errors=True)
+    terms = []
+    for c, obs in zip(cases, results):
+        ss = []
+        for k, s in enumerate(c["items"]):
+            segs = K.coq_list(["Seg %d %d %d" % (sg[1], sg[2], sg[3]) for sg in s["segs"]])
+            o = K.coq_list(obs[k]) if obs is not None else "[OBad]"
+            ss.append("(false, %s, %s)" % (segs, o))
+        terms.append(K.coq_list(ss))
+    shards = ["Definition cases : list (list sample) := %s.\nEval vm_compute in (map verdict cases).\n" % K.coq_list(ch) for ch in K.chunked(terms, K.NCPU)]
+    try:
+        res = K.coq_eval(PROP, "From SV Require Import Model.FrameLimit Tie.C14.\nFrom Coq Require Import NArith.\nOpen Scope N_scope.", shards)
+    except RuntimeError as ex:
+        raise K.TieBroken(str(ex))
+    return [v for r in res for v in r]
 
 
 def _line(c):
@@ -95,6 +220,15 @@ def _oseg(tok):
 def evaluate(cases):
     if not cases:
         return []
+    e2e = [(i, c) for i, c in enumerate(cases) if c.get("kind") == "e2e"]
+    if e2e:
+        rest = [(i, c) for i, c in enumerate(cases) if c.get("kind") != "e2e"]
+        out = [None] * len(cases)
+        for (i, _), v in zip(e2e, _evaluate_e2e([c for _, c in e2e])):
+            out[i] = v
+        for (i, _), v in zip(rest, evaluate([c for _, c in rest])):
+            out[i] = v
+        return out
     ok, log, bindir = K.cargo_build("h_samply")
     if not ok:
         raise K.TieBroken("harness h_samply does not build against the current tree:\n" + log[-1500:])
@@ -132,7 +266,8 @@ def known(case):
 
 
 def describe(case):
-    return [{"extra": s["extra"], "depth": s["depth"], "markers": sum(1 for sg in s["segs"] if sg[0] == "t")} for s in case["items"]]
+    return {"via": "samply import (perf.data)" if case.get("kind") == "e2e" else "flush_samples_to_profile",
+            "samples": [{"extra": s["extra"], "depth": s["depth"], "markers": sum(1 for sg in s["segs"] if sg[0] == "t")} for s in case["items"]]}
 
 
 def distribution(cases):
